@@ -327,7 +327,7 @@ pub fn run(started: Instant) -> i32 {
     // many chunks: the chunk counter must be a big-endian u32, every byte of it. > 256 chunks (all layer
     // combinations) and > 65536 chunks (encryption only: 2 MiB at this scale). The fourth counter byte
     // would need 2^24 chunks (512 MiB even at this scale): out of reach, stated in the evidence.
-    let many = Program::new(vec![Op::Add(0, 300 * CHUNK), Op::Add(1, 7)], Entropy::Noise);
+    let many = Program::new(vec![Op::Add(0, 1300 * CHUNK), Op::Add(1, 7)], Entropy::Noise);
     let huge = Program::new(vec![Op::Add(0, 65_600 * CHUNK), Op::Add(1, 7)], Entropy::Noise);
     for codec_writes in [false, true] {
         for l in L4::ALL {
@@ -344,7 +344,7 @@ pub fn run(started: Instant) -> i32 {
     infra::finish(
         rep,
         meta(json!({
-            "many_chunks": "archives of > 256 chunks (4 layer combos) and > 65536 chunks (encrypt only) in both directions: counter bytes 0..2; byte 3 (2^24 chunks) not reached",
+            "many_chunks": "archives of > 1300 chunks / > 300 compression blocks (4 layer combos) and > 65536 chunks (encrypt only) in both directions: counter bytes 0..2; byte 3 (2^24 chunks) not reached",
             "scaled": "all single-piece sizes (quick: every second; noise every fourth), program tree <=3 files, rich bases x 4 layer combos x levels x {1,3} recipients x both directions, codec parametrised with the scaled chunk/block sizes",
             "production": "build P with the constants written in FORMAT.md (131072 / 4194304): empty, tiny, interleaved, chunk-edge, multi-chunk and >4 MiB programs x 4 layer combos x levels x recipients x both directions; samples/archive_v1.mla",
             "gcm": format!("3 keys x 3 nonces x 4 AAD lengths x message lengths 0..=64; every composition into call sizes up to length {} for the first key/nonce (10 otherwise), every split into <=3 calls beyond", if thorough { 18 } else { 14 }),
